@@ -208,3 +208,87 @@ fn c20_builder_min() {
         }
     }
 }
+
+// ==========================================================================================
+// declared value constraints (MinMax / Enum / none): the predicate in front of every write
+// ==========================================================================================
+
+fn constraint_kernel<const N: usize>() {
+    let x: i64 = kani::any();
+    let kind: u8 = kani::any();
+    kani::assume(kind <= 2);
+    let (lo, hi): (i64, i64) = (kani::any(), kani::any());
+    // N listed values in ANY order (a GSD file lists enumeration values in file order, not
+    // sorted), duplicates allowed; concrete list length (a symbolic one ran out of memory)
+    let vals: [i64; N] = kani::any();
+    let mut member = false;
+    let mut i = 0;
+    while i < N {
+        member |= vals[i] == x;
+        i += 1;
+    }
+    let (c, want) = match kind {
+        0 => (PrmValueConstraint::MinMax(lo, hi), lo <= x && x <= hi),
+        1 => (PrmValueConstraint::Enum(vals.to_vec()), member),
+        _ => (PrmValueConstraint::Unconstrained, true),
+    };
+    assert!(c.is_valid(x) == want, "C20/constraint: a value satisfies the declared constraint exactly if it lies in the declared range / is one of the listed values (in whatever order they are listed)");
+    let r = c.assert_valid(x);
+    assert!(r.is_ok() == want, "C20/constraint: the check in front of every write accepts exactly the values the declared constraint admits");
+    kani::cover!(kind == 1 && want && vals[0] > vals[1] && vals[N - 1] == x && vals[0] != x && vals[1] != x, "cover: last value of an unsorted enumeration accepted");
+    kani::cover!(kind == 1 && !want, "cover: value outside the enumeration rejected");
+    kani::cover!(kind == 0 && !want, "cover: value outside the declared range rejected");
+    std::mem::forget(r);
+    std::mem::forget(c);
+}
+
+#[kani::proof]
+#[kani::unwind(7)]
+fn c20_constraint_kernel() {
+    constraint_kernel::<4>();
+}
+
+#[kani::proof]
+#[kani::unwind(7)]
+fn c20_constraint_kernel_5_t() {
+    constraint_kernel::<5>();
+}
+
+/// Builder with an enumeration constraint: one Unsigned8 parameter "a" at offset 1 over 2 constant
+/// bytes, three listed values in any order; one set_prm call.
+#[kani::proof]
+#[kani::unwind(6)]
+#[kani::stub(std::sync::Arc::drop_slow, arc_drop_noop)]
+fn c20_builder_enum() {
+    let consts: [u8; 2] = kani::any();
+    let e: [i64; 3] = kani::any();
+    let dflt: i64 = kani::any();
+    kani::assume(dflt >= 0 && dflt <= 255);
+    let def_a = Arc::new(UserPrmDataDefinition {
+        name: String::from("a"),
+        data_type: UserPrmDataType::Unsigned8,
+        default_value: dflt,
+        constraint: PrmValueConstraint::Enum(vec![e[0], e[1], e[2]]),
+        text_ref: None,
+        changeable: true,
+        visible: true,
+    });
+    let desc = UserPrmData { length: 2, data_const: vec![(0, consts.to_vec())], data_ref: vec![(1, def_a)] };
+    let desc: &'static UserPrmData = Box::leak(Box::new(desc));
+    let fits = |v: i64| v >= 0 && v <= 255;
+    match PrmBuilder::new(desc) {
+        Err(_) => assert!(false, "C20/defaults: a description whose defaults fit their data types builds"),
+        Ok(mut b) => {
+            let v: i64 = kani::any();
+            let res = b.set_prm("a", v).map(|_| ());
+            let accept = (v == e[0] || v == e[1] || v == e[2]) && fits(v);
+            assert!(res.is_ok() == accept, "C20/reject: a value is accepted exactly if it is one of the listed values (in whatever order) and fits the data type");
+            let want1 = if accept { v as u8 } else { dflt as u8 };
+            assert!(b.as_bytes().len() == 2 && b.as_bytes()[0] == consts[0] && b.as_bytes()[1] == want1, "C20/set: an accepted value changes exactly the parameter's byte; a rejected call leaves the block unchanged");
+            kani::cover!(accept && v == e[2] && e[0] > e[1] && v != e[0] && v != e[1], "cover: last value of an unsorted enumeration set");
+            kani::cover!(!accept && fits(v), "cover: unlisted value rejected");
+            std::mem::forget(res);
+            std::mem::forget(b);
+        }
+    }
+}
